@@ -2300,10 +2300,12 @@ XPathProcessorImpl::LocationPath()
     }
 
     // A '/' by itself is a complete location path, so do not expect a
-    // step when the next token cannot start one ("/ | a", "a[/]", "/ = b").
+    // step when the next token cannot start one ("/ | a", "a[/]", "(/)",
+    // "/ = b").
     if(m_token.empty() == false &&
        (fFoundRoot == false ||
         (tokenIs(XalanUnicode::charRightSquareBracket) == false &&
+         tokenIs(XalanUnicode::charRightParenthesis) == false &&
          tokenIs(XalanUnicode::charVerticalLine) == false &&
          tokenIs(XalanUnicode::charComma) == false &&
          tokenIs(XalanUnicode::charEqualsSign) == false &&
@@ -2404,8 +2406,10 @@ XPathProcessorImpl::Step()
         // Tell how long the entire step is.
         m_expression->updateOpCodeLength(opPos);
     }
-    else if (tokenIs(XalanUnicode::charRightParenthesis) == false)
+    else
     {
+        // Anything else, including a ')', cannot start a step: "(a/)",
+        // "count(a/)" and "()" are not expressions.
         error(
             XalanMessages::UnexpectedTokenFound_1Param,
             m_token);
